@@ -74,7 +74,7 @@ def observe_tree(root, per_node=True):
 # ----------------------------------------------------------------------------- mutation operators
 
 UNICODE_POOL = ["", " ", "\t\n", " ", "x" * 3000, "<&>\"'", "ｆｕｌｌ", "‮RTL", "emoji 😀", "\x00ctl\x1f", "ñé漢字", "1e5", "-0", "nan", "٣",
-                "http://[::1]/", "12:00", "2020-02-30", "%s %d {0}", "\\N{X}", "null", "None", "True"]
+                "http://[::1]/", "https://user:pw@host.example/x", "http://:@h.example/", "ftp://u@h.example", "http://h.example:99999/", "http://h/%zz", "12:00", "2020-02-30", "%s %d {0}", "\\N{X}", "null", "None", "True"]
 
 
 def mutate(root, rnd, t, ops=None):
